@@ -123,7 +123,11 @@ func Main(tier, replay string) {
 	if tier == "thorough" {
 		for i := 1; i < 7; i++ {
 			f := rt.Flags{EnumVal: i&1 != 0, TopEnum: i&2 != 0, RespVal: i&4 != 0}
-			spaces = append(spaces, space{fmt.Sprintf("outcomes/flags-%d", i), fc, fi, fr, 20, f}, space{fmt.Sprintf("binding/flags-%d", i), bc, bi, br, 40, f})
+			oCases, oInst, oReqs := oc, oi, or // the generated-enum-validator body only exists when that switch is on
+			if f.EnumVal {
+				oCases, oInst, oReqs = fc, fi, fr
+			}
+			spaces = append(spaces, space{fmt.Sprintf("outcomes/flags-%d", i), oCases, oInst, oReqs, 20, f}, space{fmt.Sprintf("binding/flags-%d", i), bc, bi, br, 40, f})
 		}
 	}
 	var replayID string
